@@ -101,6 +101,9 @@ func genRecCase(rng *rand.Rand, env string) *recCase {
 		c.Marker = fmt.Sprint(100000 + rng.Intn(900000))
 	}
 	n := 1 + rng.Intn(4)
+	if rng.Intn(40) == 0 {
+		n = 20 + rng.Intn(30) // many panics in a row on one instance
+	}
 	for i := 0; i < n; i++ {
 		c.Seq = append(c.Seq, []string{"ok", "panic", "panic"}[rng.Intn(3)])
 	}
